@@ -19,6 +19,7 @@
 
 
 #include <QDate>
+#include <QDateTime>
 #include <QDir>
 #include <QFile>
 #include <QFileInfo>
@@ -98,6 +99,26 @@ public:
         if (m_rotationOnStartup) {
             checkStartupRotation();
         }
+    }
+
+    bool flush()
+    {
+        auto file = q_ptr->file();
+        const auto ok = file->flush();
+
+#if QT_VERSION >= QT_VERSION_CHECK(5, 10, 0)
+        // init() of the next run reads the day of the active file's content back from the
+        // modification time. Buffered records reach the file when it is flushed or closed,
+        // which may be a day later than they were logged: give the file the day of its
+        // content again
+        if (m_rotationDaily && m_initialized && m_currentLogDate.isValid()
+            && m_currentLogDate != QDate::currentDate() && file->size() > 0) {
+            file->setFileTime(QDateTime(m_currentLogDate, QTime(23, 59, 59)),
+                              QFileDevice::FileModificationTime);
+        }
+#endif
+
+        return ok;
     }
 
     void rotateIfNeeded(const LogMessage &lmsg)
@@ -374,7 +395,10 @@ RotatingFileSink::RotatingFileSink(const QString &path,
 }
 
 QTLOGGER_DECL_SPEC
-RotatingFileSink::~RotatingFileSink() = default;
+RotatingFileSink::~RotatingFileSink()
+{
+    d->flush();
+}
 
 QTLOGGER_DECL_SPEC
 void RotatingFileSink::send(const LogMessage &lmsg)
@@ -382,6 +406,12 @@ void RotatingFileSink::send(const LogMessage &lmsg)
     d->init();
     d->rotateIfNeeded(lmsg);
     FileSink::send(lmsg);
+}
+
+QTLOGGER_DECL_SPEC
+bool RotatingFileSink::flush()
+{
+    return d->flush();
 }
 
 } // namespace QtLogger
